@@ -1,4 +1,5 @@
 import NomtModel.Store.Crash3
+import NomtModel.Store.RecoverReal
 /-!
 # C03 — A process crash at any instant leaves exactly the old or the new state
 
@@ -35,5 +36,73 @@ theorem T3_1_crash_atomic
       = absNew P (run ⟨d0, []⟩ pre).dur m1 w1 := by
   have h := sync_crash_atomic P d0 hinert pre post m1 w1 hpre hflushed hwal hseq hpost
   exact ⟨fun p hp => h.1 p hp _ (crashImage_isImage _), h.2 _ (crashImage_isImage _)⟩
+
+/-- T3.1b **crash atomicity including the rollback log** (process-crash corollary of T4.2): the directory left by a
+process crash at any event boundary of an accepted sync trace recovers — tree, hash-table view and live rollback
+records together — to exactly the old or exactly the new state; to the new one once the call returned. -/
+theorem T3_1b_crash_atomic_with_rollback_log (L : LogParams MetaRec LogRec)
+    (d0 : Disk Content MetaRec WalRec LogRec)
+    (hinert : ∀ b, htView P d0 b = d0.pages File.fHt b)
+    (pre post : List (Ev Content MetaRec WalRec LogRec)) (m1 : MetaRec) (w1 : WalRec)
+    (hpre : ∀ ev ∈ pre, EvPreL P L d0 ev)
+    (hflushed : (run ⟨d0, []⟩ pre).vol = [])
+    (hwal : (run ⟨d0, []⟩ pre).dur.wal = some w1)
+    (hseq : P.walSeqn w1 = P.seqn m1)
+    (hpost : PostOKL P L (run ⟨d0, []⟩ pre).dur m1 w1 ⟨applyEff (run ⟨d0, []⟩ pre).dur (.setMeta m1), []⟩ post) :
+    (∀ p, p <+: pre ++ ([Ev.eff (.setMeta m1), Ev.fsync File.fMeta] ++ post) →
+       absOfL P L (crashImage (run ⟨d0, []⟩ p)) = absOfL P L d0 ∨
+       absOfL P L (crashImage (run ⟨d0, []⟩ p)) =
+         (absNew P (run ⟨d0, []⟩ pre).dur m1 w1, absLog L m1 (run ⟨d0, []⟩ pre).dur.log)) ∧
+    absOfL P L (crashImage (run ⟨d0, []⟩ (pre ++ ([Ev.eff (.setMeta m1), Ev.fsync File.fMeta] ++ post))))
+      = (absNew P (run ⟨d0, []⟩ pre).dur m1 w1, absLog L m1 (run ⟨d0, []⟩ pre).dur.log) := by
+  have h := sync_crash_atomic_log P L d0 hinert pre post m1 w1 hpre hflushed hwal hseq hpost
+  exact ⟨fun p hp => h.1 p hp _ (crashImage_isImage _), h.2 _ (crashImage_isImage _)⟩
+
+/-! ## Nested crashes: recovery interrupted at any point (`Store/Recover.lean`)
+
+`recoverTrace d` is recovery of image `d` as a trace: if the WAL's sequence number equals the meta's, the WAL's page
+diffs are written into the table, the table is fsynced, then the WAL is truncated and fsynced (a stale WAL is only
+truncated); then the rollback segments without live records are removed and the tail beyond `end_live` is cut.
+`WalFun` : the WAL names no bucket twice with different contents. -/
+
+/-- T3.2 **recovery is idempotent under interruption**: for every prefix `p` of the recovery of `d` and every image
+of `run ⟨d, []⟩ p` (any subset of the un-synced recovery writes lost) the abstraction — tree, table view, live rollback
+records — is the one of `d`; the image's WAL is `d`'s or empty, so the statement applies again to its own recovery. -/
+theorem T3_2_recovery_idempotent (L : LogParams MetaRec LogRec)
+    (d : Disk Content MetaRec WalRec LogRec) (hfun : WalFun P d)
+    (p : List (Ev Content MetaRec WalRec LogRec)) (hp : p <+: recoverTrace P L d)
+    (img : Disk Content MetaRec WalRec LogRec) (himg : IsImage (run ⟨d, []⟩ p) img) :
+    absOfL P L img = absOfL P L d ∧ (img.wal = d.wal ∨ img.wal = none) :=
+  recovery_idempotent P L d hfun p hp img himg
+
+/-- T3.2b **arbitrarily nested crashes**: any image reached by any number of interrupted recoveries (each one started
+on the image the previous interruption left) abstracts to the state of the first image. -/
+theorem T3_2b_nested_recovery_idempotent (L : LogParams MetaRec LogRec)
+    (d d' : Disk Content MetaRec WalRec LogRec) (hfun : WalFun P d) (h : NestedCrash P L d d') :
+    absOfL P L d' = absOfL P L d :=
+  nested_recovery_idempotent P L d d' hfun h
+
+/-- T3.2c the recovery order **as the code has it** (`bitbox::recover` does not fsync the table before it collapses
+the WAL durably) is idempotent when only the process dies (all issued effects survive) … -/
+theorem T3_2c_real_order_crash_idempotent (L : LogParams MetaRec LogRec)
+    (d : Disk Content MetaRec WalRec LogRec) (hfun : WalFun P d)
+    (p : List (Ev Content MetaRec WalRec LogRec)) (hp : p <+: recoverTraceReal P L d) :
+    absOfL P L (crashImage (run ⟨d, []⟩ p)) = absOfL P L d :=
+  recoverTraceReal_crash_idempotent P L d hfun p hp
+
+/-- … but NOT under power loss (this is C04's concern; recorded here next to the order it is about): on the instance
+`Toy.dR` the real order has a prefix and an image whose table view differs from the one of `Toy.dR`. -/
+theorem T3_2d_real_order_not_powerloss_idempotent :
+    ∃ p img, p <+: recoverTraceReal Toy.P Toy.L Toy.dR ∧ IsImage (run ⟨Toy.dR, []⟩ p) img ∧
+      absOfL Toy.P Toy.L img ≠ absOfL Toy.P Toy.L Toy.dR :=
+  Toy.toy_real_recovery_loses_table
+
+/-- non-vacuity of T3.2: `Toy.dR` (new meta, matching WAL, table not yet written, a tail record beyond the live range)
+satisfies the hypothesis and its recovery trace is not empty: redo, table fsync, WAL truncation, seglog clean-up. -/
+example : WalFun Toy.P Toy.dR ∧ (recoverTrace Toy.P Toy.L Toy.dR).length = 7 ∧
+    (∀ p, p <+: recoverTrace Toy.P Toy.L Toy.dR → ∀ img, IsImage (run ⟨Toy.dR, []⟩ p) img →
+      absOfL Toy.P Toy.L img = absOfL Toy.P Toy.L Toy.dR) :=
+  ⟨Toy.dR_walFun, by rw [Toy.dR_trace]; rfl,
+   fun p hp img himg => (T3_2_recovery_idempotent Toy.P Toy.L Toy.dR Toy.dR_walFun p hp img himg).1⟩
 
 end Nomt.C03
